@@ -37,6 +37,7 @@ func isDeviceMap(f string) bool {
 
 func runC06(c *an.Ctx) {
 	p := c.P
+	signingCoverage(c, "COVER", "glow", "EquipmentAuthorization", "Signature")
 	ctor := p.Constructor("server", "GCAServer")
 	construction := p.ConstructionPhase("server", ctor)
 	var saver, loader *ssa.Function
@@ -98,17 +99,7 @@ func runC06(c *an.Ctx) {
 		}
 	}
 
-	// AUTH at call sites of the saver
-	sites := p.CallSites(saver)
-	c.Count("AUTH", len(sites))
-	c.Floor("AUTH", 1)
-	for _, s := range sites {
-		call, ok := s.(*ssa.Call)
-		if !ok {
-			continue
-		}
-		gcaAuthAtCall(c, call, 1, "the authorization saver")
-	}
+	equipmentAuthSites(c, saver)
 	saverStructure(c, saver, false)
 	saverStructure(c, loader, true)
 	// the loader verifies every record before applying it
@@ -142,6 +133,37 @@ func runC06(c *an.Ctx) {
 	c.Check(okV, "AUTH", loader, loader.Pos(), an.KeyOf(loader, "loader-verifies"), "the loader verifies each persisted authorization under the GCA key before applying it", "call to a function whose nil-error summary contains Verify(gcaPubkey, ...)")
 	keyset(c, []*ssa.Function{saver, loader}, "C06")
 	c.Note("INVERSE", saver, saver.Pos(), an.KeyOf(saver, "key-uniqueness"), "a new authorization whose public key is already used by another id overwrites that id's index entry (uniqueness of keys across ids is not enforced by the code; the property's conflict cases are per id)")
+}
+
+// equipmentAuthSites: AUTH at every call site of the authorization saver.
+func equipmentAuthSites(c *an.Ctx, saver *ssa.Function) {
+	sites := c.P.CallSites(saver)
+	c.Count("AUTH", len(sites))
+	c.Floor("AUTH", 1)
+	for _, s := range sites {
+		call, ok := s.(*ssa.Call)
+		if !ok {
+			continue
+		}
+		gcaAuthAtCall(c, call, 1, "the authorization saver")
+	}
+}
+
+// findAuthSaver: the non-construction function that changes the device tables.
+func findAuthSaver(p *an.Program) *ssa.Function {
+	ctor := p.Constructor("server", "GCAServer")
+	construction := p.ConstructionPhase("server", ctor)
+	for _, fn := range p.FuncsIn("server") {
+		if construction[fn] {
+			continue
+		}
+		for _, op := range serverMapOps(p, fn, "GCAServer") {
+			if isDeviceMap(op.field) {
+				return fn
+			}
+		}
+	}
+	return nil
 }
 
 // gcaAuthAtCall checks, at a call that takes the GCA-signed object as argument argIdx,
@@ -205,6 +227,20 @@ func saverStructure(c *an.Ctx, fn *ssa.Function, isLoader bool) {
 	}
 	idT := fi.FieldOfTerm(EA, "ShortID")
 	n := 0
+	if isLoader {
+		// every loop of the loader runs to its end unless start-up is aborted
+		for _, l := range loopsOf(fn) {
+			okExit, why := l.noSilentEarlyExit(fi)
+			pos := fn.Pos()
+			for _, in := range l.header.Instrs {
+				if in.Pos().IsValid() {
+					pos = in.Pos()
+					break
+				}
+			}
+			c.Check(okExit, "CASES", fn, pos, an.KeyOf(fn, "loader:no-early-exit:"+l.header.String()), "a loop of the authorization loader is left only when all its records were visited or by an error that aborts start-up (no break / silent return that drops the remaining records)", why)
+		}
+	}
 	var fileWrite *ssa.Call
 	for _, b := range fn.Blocks {
 		for _, in := range b.Instrs {
